@@ -45,6 +45,19 @@ def boundary_values(m, rnd, extra=()):
     for _ in range(24):
         vs.add(rnd.randint(lo, hi))
         vs.add(rnd.randint(max(lo, m.min - 300), min(hi, m.max + 300)))
+    # regularly spaced enums: positions inside holes that continue the spacing of the neighbours
+    sv = m.sorted_values
+    diffs = sorted({b - a for a, b in zip(sv, sv[1:]) if b - a > 1})[:3]
+    pairs = [(a, b) for a, b in zip(sv, sv[1:]) if b - a > 1]
+    for a, b in (pairs if len(pairs) <= 24 else rnd.sample(pairs, 24)):
+        for d in diffs + [sv[1] - sv[0] if len(sv) > 1 else 1]:
+            for k in (1, 2, 3):
+                if a < a + k * d < b:
+                    vs.add(a + k * d)
+                if a < b - k * d < b:
+                    vs.add(b - k * d)
+        vs.add(a + (b - a) // 3)
+        vs.add(b - (b - a) // 3)
     # aliases of discriminants under truncation to a narrower width (a bound test or cast done in the wrong type)
     picks = [m.min, m.max, 0, -1] + [m.sorted_values[rnd.randrange(m.n)] for _ in range(6)]
     for v in picks:
@@ -243,7 +256,7 @@ def all_pairs_or_sample(m, rnd, limit=64):
     return sorted(pairs)
 
 
-def rand_history(rnd, n, max_len=None):
+def rand_history(rnd, n, max_len=None, ord_ok=False):
     """History from a seeded PRNG (used where thousands of histories per case are wanted)."""
     max_len = max_len if max_len is not None else min(2 * n + 4, 24)
     args = sorted({0, 1, 2, max(0, n // 2), max(0, n - 1), n, n + 1, n + 5})
@@ -262,7 +275,7 @@ def rand_history(rnd, n, max_len=None):
             ops.append("l")
         else:
             ops.append("h")
-    f = rnd.choice(M.FINISHERS + M.PARAM_FINISHERS + [None])
+    f = rnd.choice(M.FINISHERS + M.PARAM_FINISHERS + [None] + (M.ORD_FINISHERS * 2 if ord_ok else []))
     if f in M.PARAM_FINISHERS:
         f = "%s:%d" % (f, rnd.choice(args))
     if f:
@@ -339,7 +352,7 @@ def full_script(sc, k, m, cfg, rnd, n_hist=4, n_pairs=10, n_strings=24, limit=24
             sub = len(m.range_values(i, j))
             trip.append((i, j, ["l"] + rand_history(rnd, sub, max_len=6)))
         sc_range(sc, k, m, cfg, trip, ref=ref)
-    sc_names(sc, k, m, cfg, hists[:3], ref=ref)
+    sc_names(sc, k, m, cfg, hists[:3] + [["max"], ["n", "min"]], ref=ref)
 
 
 def script_for_modules(m, cfgs, rnd_seed, **kw):
